@@ -918,7 +918,11 @@ impl<'a> Renderer<'a> {
         if k_omitted {
             self.feat.empty_key += 1;
         } else {
+            // the implicit key of a single pair in a flow sequence must stay on one line (C06 D07)
+            let was = self.in_implicit_block_key;
+            self.in_implicit_block_key = in_seq;
             self.flow_node(k, cont, key_single, true);
+            self.in_implicit_block_key = was;
         }
         if v_omitted && !in_seq && !k_omitted && self.ch.pick(2) == 1 {
             // `k` alone in a flow mapping: value omitted
